@@ -29,7 +29,13 @@ const BAD_EXPRS: [&str; 6] = ["error!", "AS-FOO AND", "{ 10.0.0.0/8", "", "AS650
 
 fn gen_policy(ctx: &mut Ctx, i: usize) -> RunningPolicy {
     let base = NAMES[ctx.pick(NAMES.len())];
-    let name = format!("{base}-{i}");
+    // element text is significant: a name with blanks around it is another name than the same without
+    let name = match ctx.tape.weighted(&[12, 1, 1, 1]) {
+        1 => format!(" {base}-{i}"),
+        2 => format!("{base}-{i} "),
+        3 => format!("  {base}-{i}\t"),
+        _ => format!("{base}-{i}"),
+    };
     let comment = match ctx.tape.weighted(&[6, 2, 2, 2, 1, 1, 1, 1]) {
         0 => Some(format!("bgpfu-fltr: {}", EXPRS[ctx.pick(EXPRS.len())])),
         1 => None,
@@ -166,7 +172,7 @@ pub static C16: PropSpec = PropSpec {
     runs: |t| if t == Tier::Thorough { 30_000_000 } else { 150_000 },
     enumerated: |_| 0,
     run,
-    rule: "one run in 400 is a C01-style history of real agent runs (the reader fed by the session's reply routing under seeded delays; the router must end up managing exactly the selected statements). Otherwise: running configurations of 0-6 (thorough: 0-12) statements from a grammar: annotation absent / bgpfu-fltr with a parseable expression (12 shapes incl. AS-path regex, PeerAS, literal sets, XML-escaped characters) / unparseable / other text / near-miss prefixes (no space, upper case, leading garbage, padded); decoration /* c */, none, /*c*/, padded; jcmd:active absent / true / false; four attribute orders incl. unrelated attributes and Junos's duplicate xmlns:jcmd; names with XML metacharacters, quotes, non-ASCII; bodies: then reject, nothing, terms, then accept, reject plus another action. Oracle: reader's (name, expression) set == independent selection; a reply containing an annotated active statement of other content, or two selected statements of one name (1 run in 8 repeats a name), may be rejected as a whole but never answered with a selection that leaves one of them out. Non-trivial = the selection is non-empty; distinct = distinct event-log hash (the document)",
+    rule: "one run in 400 is a C01-style history of real agent runs (the reader fed by the session's reply routing under seeded delays; the router must end up managing exactly the selected statements). Otherwise: running configurations of 0-6 (thorough: 0-12) statements from a grammar: annotation absent / bgpfu-fltr with a parseable expression (12 shapes incl. AS-path regex, PeerAS, literal sets, XML-escaped characters) / unparseable / other text / near-miss prefixes (no space, upper case, leading garbage, padded); decoration /* c */, none, /*c*/, padded; jcmd:active absent / true / false; four attribute orders incl. unrelated attributes and Junos's duplicate xmlns:jcmd; names with XML metacharacters, quotes, non-ASCII, blanks around them; bodies: then reject, nothing, terms, then accept, reject plus another action. Oracle: reader's (name, expression) set == independent selection; a reply containing an annotated active statement of other content, or two selected statements of one name (1 run in 8 repeats a name), may be rejected as a whole but never answered with a selection that leaves one of them out. Non-trivial = the selection is non-empty; distinct = distinct event-log hash (the document)",
     components: &[("junos-agent policies/fetch.rs candidate reader via the verif facade", "real"), ("router", "model: running-configuration renderer of FakeJunos"), ("whole agent against FakeJunos + FakeIrrd (A-sim)", "real, one run in 400")],
     assumptions: &["decided by generated input documents (no schedule, clock or fault involved)", "expressions are compared after rpsl parse + display"],
     watchdog_s: 30,
